@@ -210,6 +210,14 @@ func runSigCase(ta *TestApp, seed uint64, idx int, rep *Report, profile string) 
 			id := sigIdentities[rng.Intn(len(sigIdentities))]
 			addr := addrs[rng.Intn(2)]
 			ref := refs[rng.Intn(len(refs))]
+			if rng.Chance(60) { // mostly records whose payload link is published: only those reach the cryptographic check
+				for _, r := range refs {
+					if _, pub := myLinks[hashHex(r)]; pub {
+						ref = r
+						break
+					}
+				}
+			}
 			if forced {
 				addr, ref = addrs[0], refs[0]
 			}
@@ -226,7 +234,7 @@ func runSigCase(ta *TestApp, seed uint64, idx int, rep *Report, profile string) 
 			alg, cert := id.alg, id.certPEM
 			fieldsOK := true
 			var jsonStr string
-			mut := rng.Intn(10)
+			mut := rng.Intn(12)
 			if forced {
 				mut = 9
 			}
@@ -248,6 +256,10 @@ func runSigCase(ta *TestApp, seed uint64, idx int, rep *Report, profile string) 
 			case 5: // a bundle: the signer's certificate followed by another one (e.g. the issuing CA's): the first block is the signer's
 				cert = cert + sigIdentities[rng.Intn(len(sigIdentities))].certPEM
 				rep.Count("store.certificate_bundle")
+			case 10, 11: // a certificate field that is no certificate, under a valid signature and a supported algorithm name
+				cert = []string{"", "certificate", "-----BEGIN CERTIFICATE-----\nAAAA\n-----END CERTIFICATE-----\n",
+					"-----BEGIN PUBLIC KEY-----\nAAAA\n-----END PUBLIC KEY-----\n"}[rng.Intn(4)]
+				rep.Count("store.certificate_field_is_no_certificate")
 			case 4: // malformed JSON
 				fieldsOK = false
 				jsonStr = "{\"signature\": \"abc\", "
@@ -280,6 +292,9 @@ func runSigCase(ta *TestApp, seed uint64, idx int, rep *Report, profile string) 
 				if err == nil && !discard {
 					write()
 					ok = true
+					if !forced && skey == hashHex(addr+":"+ref) && rng.Chance(50) {
+						probeAddr, probeRef = addr, ref // ... and often the record just stored (tampered, foreign or malformed certificate, ...)
+					}
 				}
 			}()
 			ts := bt.String()
@@ -316,15 +331,19 @@ func runSigCase(ta *TestApp, seed uint64, idx int, rep *Report, profile string) 
 			H(ref)
 			var resp *sigtypes.QueryVerifySignatureResponse
 			var err error
+			verifyPanic := ""
 			func() {
 				defer func() {
 					if r := recover(); r != nil {
 						rep.Panics = append(rep.Panics, fmt.Sprintf("case %d step %d verify: %v", idx, s, r))
 						err = fmt.Errorf("panic")
+						verifyPanic = fmt.Sprint(r)
 					}
 				}()
 				resp, err = k.VerifySignature(sdk.WrapSDKContext(ctx), &sigtypes.QueryVerifySignatureRequest{TargetAccAddress: addr, ReferenceId: ref})
 			}()
+			// C20: the query answers (valid or an error) whatever record is stored under the key
+			rep.Eval("C20.verify_signature_query_does_not_panic", verifyPanic == "", idx, s, fmt.Sprintf("VerifySignature(%s,%s) panicked: %s", addr, ref, verifyPanic))
 			// independent expectation
 			want := false
 			var st stored
